@@ -9,6 +9,8 @@ import (
 	"sort"
 	"strconv"
 	"testing"
+
+	"github.com/onsi/gomega"
 )
 
 type vmLog struct {
@@ -18,6 +20,8 @@ type vmLog struct {
 }
 
 func vmOpen(t *testing.T) *vmLog {
+	// the package mocks (mocknetlink, MockIPSets) assert with gomega: a failed assertion fails the driver
+	gomega.RegisterTestingT(t)
 	p := os.Getenv("VERIF_OUT")
 	if p == "" {
 		t.Skip("VERIF_OUT not set: /verif driver, not a unit test")
